@@ -14,6 +14,7 @@ from pyvc import core
 from pyvc.api import (PathEnd, XDataset, add_var, attr, call, cls, expect_ok, expect_raise, fn, method, mk_bool, new_interp,
                       outcome, s_and, s_eq, s_not, s_or, sym_array, sym_size, zint)
 from pyvc.core import SInt
+from pyvc.lib.xarray_ import Variable
 from pyvc.lib import numpy_ as np
 from pyvc.lib.floats import SFloat
 from pyvc.lib.stdlib import BytesOf, HashModel
@@ -51,6 +52,8 @@ def scenarios(tier):
     out.append({'name': 'convention class is part of the key', 'fn': 'scn_class', 'kwargs': {}})
     out.append({'name': 'hash_int', 'fn': 'scn_hash_int', 'kwargs': {}})
     out.append({'name': 'hash_string', 'fn': 'scn_hash_string', 'kwargs': {}})
+    for ci in range(len(CONFIGS)):
+        out.append({'name': f'default key after an in-place edit of the geometry[{CONFIGS[ci][0]}]', 'fn': 'scn_history', 'kwargs': {'ci': ci}})
     out.append({'name': 'hash_attributes', 'fn': 'scn_hash_attributes', 'kwargs': {}})
     out.append({'name': 'marshal: attribute chunk is a function of the attribute values', 'fn': 'scn_marshal', 'kwargs': {}})
     return out
@@ -335,6 +338,32 @@ def scn_sensitive(c, ci, gi, edit):
         differs.append(d)
     c.check(f'a single {edit} edit of geometry variable {G[gi]!r} changes at least one chunk of the stream (hence the key, A-HASH)',
             s_or(*differs) if differs else False)
+
+
+def scn_history(c, ci):
+    """The key is a function of the geometry as it is NOW: asking twice for the default key of one dataset object, with an in-place edit
+    of a geometry variable in between, gives the key of the edited geometry (nothing is remembered from the first call)."""
+    it, ds, G = _setup(c, ci)
+    mk = fn(it, 'emsarray.operations.cache', 'make_cache_key')
+    k1 = expect_ok(c, 'make_cache_key(dataset) returns', lambda: call(it, mk, ds))
+    again = expect_ok(c, 'a second call on the unchanged dataset returns', lambda: call(it, mk, ds))
+    c.check('the default key is a digest of a byte stream', hasattr(k1, 'chunks') and hasattr(again, 'chunks'))
+    if not (hasattr(k1, 'chunks') and hasattr(again, 'chunks')):
+        raise PathEnd()
+    c.check('asking again without any change feeds the same stream', len(k1.chunks) == len(again.chunks))
+    g = G[0]
+    v = ds._vars[g]
+    ds._vars[g] = Variable(v.dims, sym_array(c, 'edited_' + str(g), v.arr.shape, 'V', v.arr.dtype), v.attrs, v.encoding)      # dataset[g] = ...: same Dataset object
+    k2 = expect_ok(c, 'make_cache_key(dataset) after the edit returns', lambda: call(it, mk, ds))
+    want, _ = _key(c, it, ds)
+    c.check('after the edit the key is computed afresh', hasattr(k2, 'chunks') and k2 is not k1 and len(k2.chunks) == len(want))
+    if not hasattr(k2, 'chunks') or len(k2.chunks) != len(want):
+        raise PathEnd()
+    for k, (a, b) in enumerate(zip(k2.chunks, want)):
+        if isinstance(a, BytesOf) and a.what[0] == 'marshal':
+            c.check(f'chunk {k} of the second key is that of the current geometry', a.payload is b.payload or a.payload == b.payload)
+        else:
+            c.check(f'chunk {k} of the second key is that of the current geometry', chunk_equal(c, a, b, f'h{k}'))
 
 
 def scn_class(c):
